@@ -65,6 +65,10 @@ theorem afterFlush_ok (st : St) : StepOk (.ok (afterFlush st)) := by
 theorem flushLine_acc (st : St) : (flushLine st).1.acc = st.acc := by
   simp only [flushLine]; split <;> rfl
 
+/-- With the regenerated indices (`bits[1]`, `bits[2:]` of `"T…"`): first bit = colour, rest = data. -/
+theorem uncSplit_cons (c : Bool) (rest : List Bool) : uncSplit (c :: rest) = some (c, rest) := rfl
+theorem uncSplit_nil : uncSplit [] = none := rfl
+
 theorem doUncompressed_acc : ∀ (bits : List Bool) (st : St), (doUncompressed st bits).1.acc = st.acc := by
   intro bits
   induction bits with
@@ -72,7 +76,7 @@ theorem doUncompressed_acc : ∀ (bits : List Bool) (st : St), (doUncompressed s
   | cons c cs ih =>
     intro st
     simp only [doUncompressed]
-    generalize hst1 : ({ st with curline := _, curpos := st.curpos + 1 } : St) = st1
+    generalize hst1 : ({ st with curline := _, curpos := CcittCode.uncStep st.curpos } : St) = st1
     have h1 : st1.acc = st.acc := by rw [← hst1]
     have h2 := flushLine_acc st1
     generalize flushLine st1 = r at h2
@@ -170,7 +174,7 @@ theorem accept_ok (st : St) (v : Option Sym) (hv : ∀ s, v = some s → leafOk 
           cases hb : u.bits with
           | nil => simp [leafOk, ht, hb] at this
           | cons c rest =>
-            simp only []
+            simp only [uncSplit_cons]
             generalize doUncompressed _ rest = r
             obtain ⟨st', skip⟩ := r
             cases skip <;> exact wt_mode _ rfl rfl
